@@ -21,7 +21,7 @@ BUILT = {
    note='Assumes nothing about internals: the reference run supplies the batch sequence; line probes on the early-return blocks are reported as coverage only.', ref='§4 C06'),
  'C08': dict(cat='exploration', tech='postcondition monitors interposed on maxvol / maxvol_rect / _maxvol (all calls incl. those from TT-cross) plus a sys.monitoring line probe counting row swaps',
    text='Every execution is judged: distinct in-range row numbers of the promised count, A = B A[I], B[I] = identity, max|B| <= e when the swap count stayed below k (independent coefficients by a linear solve), row norms <= e when the rectangular variant stopped early, ValueError for non-tall input and inconsistent dr_min/dr_max.',
-   note='Tolerance 100 eps cond(A[I]) max(1,|B|) |A[I]|; inputs are tall matrices of full column rank (cond <= 1e8) incl. duplicate and zero rows.', ref='§4 C08'),
+   note='Residual tolerance of A = B A[I]: 100 eps (r+steps+10) r max(1,|B|) |A[I]| (backward-stable model, no conditioning factor); B[I] = identity judged with the forward bound (conditioning of the selected rows); inputs are tall matrices of full column rank (cond <= 1e8) incl. duplicate and zero rows.', ref='§4 C08'),
  'C07': dict(cat='exploration', tech='per-update contract interposed on als._optimize_core / als_func._optimize_core (normal equations of every trained slice), objective trajectory from callback / interposed accuracy, metamorphic restart and permutation runs calibrated by measured rounding amplification, np.empty poison for the rank-adaptive mode',
    text='Every core update of every run is judged to be the regularised least-squares minimiser with untouched slices byte-identical; the recomputed objective never increases; shape/ranks kept; the last-updated core is optimal w.r.t. independently rebuilt interfaces; all splittings a+b and 3 permutations agree; ValueError / info / callback contract; rank-adaptive results finite with ranks <= r under poisoned np.empty.',
    note='lamb=None is outside the quantifier; instances amplifying 1e-14 data perturbations by > 1e6 are not judged for restart/permutation; als_func with thr_pow=0.', ref='§4 C07'),
@@ -62,7 +62,7 @@ BUILT = {
    text='const (incl. zero lists / protected index / ValueError), delta, vector_delta and matrix_delta at every position, poly for scalar/vector shifts and powers 0..4, rand / rand_norm / rand_custom / rand_stab cores exactly equal to the Fortran-order cut of the recorded draw, rank profiles, value ranges, rand_stab entries of order one at d = 1000.',
    note='const tolerance 4 d 2^-52 relative (d-th root).', ref='§4 C19'),
  'C01': dict(cat='exploration', tech='shadow-value runtime monitor: random expression programs evaluated by the real functions, every node and observer compared with a longdouble / exact-integer dense shadow',
-   text='Oracle on executions of the real add/sub/mul/outer/copy and all evaluation routines over generated programs and TT families; held on the K programs listed in the evidence, never "verified".',
+   text='Oracle on executions of the real add/sub/mul/outer/copy and all evaluation routines over generated programs and TT families (incl. entries of 1e+-60, tensors with up to 2^70 entries judged against exact Python-integer references, operands stored as float32); held on the K programs listed in the evidence, never "verified".',
    note='Trusted: NumPy longdouble arithmetic as dense reference; tolerance 10(sum ranks+d)2^-52*absbound; exact Python ints for integer cores.', ref='§4 C01'),
 }
 
